@@ -27,4 +27,9 @@ def main(argv):
 if __name__ == "__main__":
     rc = main(sys.argv[1:])
     sys.stdout.flush()
+    try:
+        from .runner import _remove_process_scratch
+        _remove_process_scratch()
+    except Exception:  # noqa: BLE001 - never turn a verdict into a crash while cleaning up
+        pass
     os._exit(rc)
